@@ -31,7 +31,7 @@ func runC16(c *Ctx, pr *PropertyRun) {
 	pr.Assumptions = append(pr.Assumptions, "strconv.Quote/%q and strconv.Unquote, time.Format and time.Parse with one layout, URL.String and url.Parse are inverse pairs on their domains (standard-library contracts)")
 	pr.Trusted = append(pr.Trusted, "golang.org/x/tools/go/ssa v0.29.0")
 	c16Finite(c, pr)
-	c16Pairs(c, pr)
+	c16Pairs(c, pr, "C16", nil)
 	utcRule(c, pr, "C16")
 	c16Reject(c, pr)
 }
@@ -246,9 +246,9 @@ func hasUse(us []calleeUse, name string) *calleeUse {
 	return nil
 }
 
-func c16Pairs(c *Ctx, pr *PropertyRun) {
+func c16Pairs(c *Ctx, pr *PropertyRun, prop string, keep func(what string) bool) {
 	p := c.P
-	r := NewRule("C16", "C16.pairs", "each wire primitive's encoder and decoder use an inverse pair of primitives with the same constants (E4)")
+	r := NewRule(prop, prop+".pairs", "each wire primitive's encoder and decoder use an inverse pair of primitives with the same constants (E4)")
 	pr.Rules = append(pr.Rules, r)
 	type pair struct {
 		what             string
@@ -263,9 +263,33 @@ func c16Pairs(c *Ctx, pr *PropertyRun) {
 		{"iCalendar UTC date-time", pkgCaldav, "(*dateWithUTCTime).MarshalText", "(*dateWithUTCTime).UnmarshalText", "(time.Time).Format", "time.Parse", true},
 		{"href", pkgInternal, "(*Href).MarshalText", "(*Href).UnmarshalText", "(*net/url.URL).String", "net/url.Parse", false},
 	}
+	// the conditional headers are read with the same decoder
+	pairs = append(pairs, pair{"entity tag (conditional header)", pkgInternal, "(ETag).String", "(*ETag).UnmarshalText", "fmt.Sprintf", "strconv.Unquote", false})
 	for _, pa := range pairs {
+		if keep != nil && !keep(pa.what) {
+			continue
+		}
 		enc := p.MustFunc(r, pa.pkg, pa.enc)
 		dec := p.MustFunc(r, pa.pkg, pa.dec)
+		if pa.what == "entity tag (conditional header)" {
+			// ConditionalMatch.ETag must go through the decoder of the pair
+			cm := p.MustFunc(r, pkgWebdav, "(ConditionalMatch).ETag")
+			if cm == nil || dec == nil {
+				continue
+			}
+			r.Role("codec-pair")
+			uses := false
+			eachCall(cm, func(site ssa.CallInstruction) {
+				if site.Common().StaticCallee() == dec {
+					uses = true
+				}
+			})
+			r.Ob(uses)
+			if !uses {
+				r.Violation("pair|"+pa.what, p.Pos(cm.Pos()), "ConditionalMatch.ETag does not read the header through (*ETag).UnmarshalText, the decoder that is the inverse of the function every tag is announced with: a tag obtained from the server may not be accepted back", nil)
+			}
+			continue
+		}
 		if enc == nil || dec == nil {
 			continue
 		}
